@@ -49,24 +49,43 @@ pub open spec fn invertible(a: int, n: int) -> bool { n > 0 && igcd(a, n) == 1 }
 
 pub open spec fn emod(a: int, n: int) -> int { a % n }
 
-// ---- constructors ----------------------------------------------------------------------------------
-macro_rules! int_from {
-    ($($t:ty),*) => { $(
-        verus! {
-        impl vstd::std_specs::convert::FromSpecImpl<$t> for Integer {
-            open spec fn obeys_from_spec() -> bool { false }
-            uninterp spec fn from_spec(v: $t) -> Integer;
-        }
-        impl From<$t> for Integer {
-            #[verifier::external_body]
-            fn from(v: $t) -> (r: Integer)
-                ensures r@ == v as int,
-            { unimplemented!() }
-        }
-        }
-    )* };
+// ---- constructors / comparisons over "integer-like" values (rule R9, ops mode) ------------------------
+/// values with an integer reading: Integer, &Integer, primitive integers, bool (0/1), Ordering (-1/0/1)
+pub trait AsInt {
+    spec fn as_int(&self) -> int;
 }
-int_from!(i32, u32, u64, usize, i64, u8);
+impl AsInt for Integer { open spec fn as_int(&self) -> int { self@ } }
+impl<'a> AsInt for &'a Integer { open spec fn as_int(&self) -> int { (**self)@ } }
+impl AsInt for i32 { open spec fn as_int(&self) -> int { *self as int } }
+impl AsInt for u32 { open spec fn as_int(&self) -> int { *self as int } }
+impl AsInt for u64 { open spec fn as_int(&self) -> int { *self as int } }
+impl AsInt for usize { open spec fn as_int(&self) -> int { *self as int } }
+impl AsInt for u8 { open spec fn as_int(&self) -> int { *self as int } }
+impl AsInt for bool { open spec fn as_int(&self) -> int { if *self { 1 } else { 0 } } }
+impl AsInt for core::cmp::Ordering {
+    open spec fn as_int(&self) -> int {
+        match *self { core::cmp::Ordering::Less => -1, core::cmp::Ordering::Equal => 0, core::cmp::Ordering::Greater => 1 }
+    }
+}
+
+/// `Integer::from(x)` for a primitive, an Integer or one of rug's incomplete values (all Integer here)
+#[verifier::external_body]
+pub fn int_from<T: AsInt>(x: T) -> (r: Integer)
+    ensures r@ == x.as_int(),
+{ unimplemented!() }
+
+#[verifier::external_body]
+pub fn icmp_eq<A: AsInt, B: AsInt>(a: &A, b: &B) -> (r: bool) ensures r == (a.as_int() == b.as_int()) { unimplemented!() }
+#[verifier::external_body]
+pub fn icmp_ne<A: AsInt, B: AsInt>(a: &A, b: &B) -> (r: bool) ensures r == (a.as_int() != b.as_int()) { unimplemented!() }
+#[verifier::external_body]
+pub fn icmp_lt<A: AsInt, B: AsInt>(a: &A, b: &B) -> (r: bool) ensures r == (a.as_int() < b.as_int()) { unimplemented!() }
+#[verifier::external_body]
+pub fn icmp_le<A: AsInt, B: AsInt>(a: &A, b: &B) -> (r: bool) ensures r == (a.as_int() <= b.as_int()) { unimplemented!() }
+#[verifier::external_body]
+pub fn icmp_gt<A: AsInt, B: AsInt>(a: &A, b: &B) -> (r: bool) ensures r == (a.as_int() > b.as_int()) { unimplemented!() }
+#[verifier::external_body]
+pub fn icmp_ge<A: AsInt, B: AsInt>(a: &A, b: &B) -> (r: bool) ensures r == (a.as_int() >= b.as_int()) { unimplemented!() }
 
 pub enum Order { MsfBe, LsfLe }
 
@@ -76,10 +95,9 @@ pub enum IsPrime { No, Probably, Yes }
 pub struct RandState { _p: u8 }
 
 impl Integer {
-    /// Integer::from(<incomplete value>) / Integer::from(Integer): identity on the view
     #[verifier::external_body]
-    pub fn from_i(v: Integer) -> (r: Integer)
-        ensures r@ == v@,
+    pub fn cmp(&self, o: &Integer) -> (r: core::cmp::Ordering)
+        ensures r.as_int() == (if self@ < o@ { -1int } else if self@ == o@ { 0int } else { 1int }),
     { unimplemented!() }
 
     #[verifier::external_body]
@@ -120,7 +138,7 @@ impl Integer {
     pub fn invert_ref(&self, n: &Integer) -> (r: Option<Integer>)
         ensures
             invertible(self@, n@) <==> r is Some,
-            r is Some ==> r->0@ == inv_mod(self@, n@) && 0 <= r->0@ < n@ && (self@ * r->0@) % n@ == 1 % n@,
+            r is Some ==> r->0@ == inv_mod(self@, n@) && 0 <= r->0@ < n@ && (self@ * r->0@) % n@ == 1int % n@,
     { unimplemented!() }
 
     #[verifier::external_body]
@@ -230,3 +248,4 @@ macro_rules! int_binop_all {
 int_binop_all!(Add, add, AddSpecImpl, obeys_add_spec, add_req, add_spec, |a, b| a + b);
 int_binop_all!(Sub, sub, SubSpecImpl, obeys_sub_spec, sub_req, sub_spec, |a, b| a - b);
 int_binop_all!(Mul, mul, MulSpecImpl, obeys_mul_spec, mul_req, mul_spec, |a, b| a * b);
+int_binop_all!(Rem, rem, RemSpecImpl, obeys_rem_spec, rem_req, rem_spec, |a, b| a % b);
